@@ -38,6 +38,8 @@ var specs = map[string]*propSpec{
 		},
 		Batches: []batch{
 			{Name: "history", Flavour: "plain", Quick: 4000, Thorough: 200000, PerProc: 100, Progress: true, TimeoutS: 900},
+			{Name: "history-optdec", Flavour: "plain", Env: []string{"SONIC_USE_OPTDEC=1"}, Quick: 800, Thorough: 60000, PerProc: 100, Progress: true, TimeoutS: 900},
+			{Name: "history-vm-encoder", Flavour: "plain", Env: []string{"SONIC_ENCODER_USE_VM=1"}, Quick: 800, Thorough: 60000, PerProc: 100, Progress: true, TimeoutS: 900},
 		},
 	},
 	"C10": {
@@ -100,6 +102,8 @@ var specs = map[string]*propSpec{
 		Batches: []batch{
 			{Name: "norace", Flavour: "plain", Quick: 2400, Thorough: 120000, PerProc: 150, Progress: true, TimeoutS: 600},
 			{Name: "race", Flavour: "race", Env: []string{"GORACE=halt_on_error=1"}, Quick: 1200, Thorough: 40000, PerProc: 100, Progress: true, TimeoutS: 900},
+			{Name: "race-optdec+vm", Flavour: "race", Env: []string{"GORACE=halt_on_error=1", "SONIC_USE_OPTDEC=1", "SONIC_ENCODER_USE_VM=1"}, Quick: 400, Thorough: 20000, PerProc: 100, Progress: true, TimeoutS: 900},
+			{Name: "norace-optdec+fastmap", Flavour: "plain", Env: []string{"SONIC_USE_OPTDEC=1", "SONIC_USE_FASTMAP=1"}, Quick: 600, Thorough: 30000, PerProc: 150, Progress: true, TimeoutS: 600},
 		},
 	},
 }
